@@ -5,12 +5,16 @@
 (*   src/wal/runtime/writer.rs       (write, batch_write: allocate-before-seal, empty   *)
 (*                                    blocks not published, rollback of a failed batch) *)
 (*   src/wal/runtime/reader.rs       (append_block_to_chain with tail carry-over)       *)
-(*   src/wal/runtime/allocator.rs    (ids, files of UnitsPerFile units, sized blocks)   *)
+(*   src/wal/runtime/allocator.rs    (ids, files of UnitsPerFile units, sized blocks;   *)
+(*                                    BlockStateTracker / FileStateTracker / flush_check: *)
+(*                                    the reclamation bookkeeping)                       *)
 (*   src/wal/runtime/walrus_read.rs  (read_next; batch_read_for_topic = plan . parse .  *)
 (*                                    commit)                                           *)
 (*   src/wal/runtime/walrus.rs       (startup_chore: recovery scan, ids, hydration,     *)
-(*                                    recount)                                          *)
-(* as the code is NOW (after the "fix:" commits).  Three historical defects can be       *)
+(*                                    recount, re-registration of the recovered blocks,  *)
+(*                                    blocks before the index position marked consumed,  *)
+(*                                    flush_check of every file seen)                    *)
+(* as the code is NOW (after the "fix:" commits).  Four historical defects can be        *)
 (* switched back on (constants below): with all switches FALSE the design refines the    *)
 (* contract within the checked bounds, with a switch TRUE TLC finds the shortest         *)
 (* behaviour in which it does not.                                                      *)
@@ -21,12 +25,32 @@
 (* result, the contract state is frozen and `viol` names the broken clause.               *)
 (* Refinement within the bounds  <=>  INVARIANT viol = "".                               *)
 (*                                                                                     *)
-(* Not modelled: offset-addressed reads, clean markers, the reclamation counters,        *)
-(* threads, crashes, real deletion of files.  The only I/O failure is `flush` failing at  *)
-(* the end of a batch (the fault seam the harness can drive).  Since e6f06c9 a failed     *)
-(* batch no longer leaves rolled-back ("dead") space inside a published block, so in this  *)
-(* sequential model used = Bytes(es) for every published block; the dead-space branches    *)
-(* of the readers are transcribed all the same (a crash can still produce such space).     *)
+(* Reclamation (C12).  The per-file counters of FileStateTracker (locked / checkpointed /   *)
+(* total blocks, fully allocated), the per-(file, block id) is_checkpointed flags of         *)
+(* BlockStateTracker and every call that touches them are transcribed; `flush_check`          *)
+(* finding a file ready (fully allocated, nothing locked, total > 0, checkpointed >= total)   *)
+(* appends it to `rq`.  Each pending request is then discharged by the internal step          *)
+(* DReclaim, which takes the contract action Reclaim(stored) with stored = the acknowledged   *)
+(* entries stored in that file: a request for a file holding an entry that is not durably     *)
+(* consumed sets `viol` to a "C12: ..." text.  The trackers are process-global statics:       *)
+(* DReopen (same process) keeps them (totals grow, blocks are registered again under their    *)
+(* recovered ids), DReopenNew (fresh process; enabled by NewProcReopen) starts from empty     *)
+(* trackers.                                                                                 *)
+(* On the pinned tree the design does NOT refine the contract in AtLeastOnce mode: blocks     *)
+(* are marked from the in-memory position while the persisted index lags (known finding       *)
+(* KF-ENG-ALO-RECLAIM-NOT-DURABLE).  The spec models what the code does; MC_WalrusBlocks      *)
+(* carries the named avoidance guard (GuardAloReclaimNotDurable) and the configuration in     *)
+(* which TLC must find the finding (MC_WalrusBlocks_finding_alo_reclaim.cfg).                 *)
+(*                                                                                           *)
+(* Not modelled: offset-addressed reads (they never touch the trackers: `info_guard` is       *)
+(* None), clean markers, threads, crashes, real deletion of files (the deleter acts every     *)
+(* 1000 background ticks), failing file creation (the only place where the different order    *)
+(* of set_fully_allocated and file creation in the two allocation functions shows).           *)
+(* The only I/O failure is `flush` failing at the end of a batch (the fault seam the harness  *)
+(* can drive).  Since e6f06c9 a failed batch no longer leaves rolled-back ("dead") space      *)
+(* inside a published block, so in this sequential model used = Bytes(es) for every           *)
+(* published block; the dead-space branches of the readers are transcribed all the same (a    *)
+(* crash can still produce such space).                                                      *)
 (***************************************************************************************)
 EXTENDS WalrusAPI
 
@@ -47,7 +71,10 @@ CONSTANTS
   \* --- historical defects (deviation switches) ---
   ParserContinuesAfterShortRange,  \* before 24aadb9: later ranges parsed after an earlier one stopped short
   Budget0PlansNothing,             \* before 678dd66: budget 0 plans no sealed range
-  TailInitPersistsZero             \* before a3c434e/e1ac9b7: every tail poll persists offset 0 of the active block
+  TailInitPersistsZero,            \* before a3c434e/e1ac9b7: every tail poll persists offset 0 of the active block
+  CkptCountedOnEveryReport,        \* before 93a0380: set_checkpointed_true counts a block on every report
+  \* --- optional second reopen action: a fresh process (empty trackers) ---
+  NewProcReopen
 
 VARIABLES
   chain,    \* [t -> Seq(block)]        sealed blocks published to the reader, in order
@@ -57,12 +84,17 @@ VARIABLES
             \*       TAIL_FLAG|id form: still understood by the readers, no longer written since ad9d0d0)
   cnt,      \* [t -> Nat]               topic_entry_counts
   al,       \* [id, f, u]               allocator: next block id, current file, next unit in it
+  fs,       \* Seq([l,c,n,full])        FileStateTracker: per WAL file (in name = creation order) locked_block_ctr,
+            \*                          checkpoint_block_ctr, total_blocks, is_fully_allocated
+  bck,      \* SUBSET <<file, id>>      BlockStateTracker: the keys whose is_checkpointed flag is set
+  rq,       \* Seq(file)                files handed to the deleter by the last operation, not yet discharged
+  lrq,      \* Seq(file)                all requests the last operation raised (what the harness observes)
   nops, nre,
   viol,     \* "" or the contract clause the design broke
   lastOp,   \* label of the code path the last operation took
   hist      \* history of operations (driver vocabulary); hidden by VIEW
 
-dvars == <<chain, wr, rd, ix, cnt, al, nops, nre, viol, lastOp>>
+dvars == <<chain, wr, rd, ix, cnt, al, fs, bck, rq, lrq, nops, nre, viol, lastOp>>
 vars  == <<avars, dvars, hist>>
 
 (* A block: id, lim (bytes), used (bytes the code believes are written: sealed `used`, or the *)
@@ -116,6 +148,9 @@ Proj(t) == [ch |-> [i \in 1 .. Len(chain[t]) |-> <<chain[t][i].id, chain[t][i].u
             w  |-> IF wr[t].id = 0 THEN <<>> ELSE <<wr[t].id, wr[t].used, wr[t].lim>>,
             ix |-> ix[t], hy |-> rd[t].hy, rsp |-> rd[t].rsp, n |-> cnt[t]]
 
+(* the per-file tracker state the harness records with it (file = ordinal in name order) *)
+FsProj == [f \in 1 .. Len(fs) |-> <<fs[f].l, fs[f].c, fs[f].n, fs[f].full>>]
+
 -----------------------------------------------------------------------------------------
 (* refinement step: take the contract's action if it allows this result, else record why not *)
 Refine(A, why) == IF ENABLED A THEN A /\ UNCHANGED viol
@@ -127,25 +162,67 @@ Log(op, label) ==
   /\ nops' = nops + 1
 
 -----------------------------------------------------------------------------------------
-(* allocator.rs *)
-AllocFirst(a) ==       \* get_next_available_block: a default block; new file when the current one is full
-  LET a1 == IF a.u >= UnitsPerFile THEN [a EXCEPT !.f = a.f + 1, !.u = 0] ELSE a IN
-  [blk |-> [id |-> a1.id, lim |-> BlockSize, used |-> 0, es |-> <<>>, f |-> a1.f, u |-> a1.u],
-   al  |-> [a1 EXCEPT !.u = a1.u + 1, !.id = a1.id + 1]]
+(* allocator.rs: the reclamation bookkeeping. k = [fs, bck, rq] is threaded through the        *)
+(* statements of an operation (rq = the requests the operation has raised so far).            *)
+(* Every existing file is registered: startup_chore registers every file it lists, including  *)
+(* the one the new allocator has just created, and a file created at a rollover is registered  *)
+(* in the same call (register_file_if_absent), so fs is a sequence as long as al.f.            *)
+(* BlockStateTracker::register_block is `or_insert`: it never clears a flag; every block a     *)
+(* reader can report was registered (allocation or recovery), so the key set itself is not      *)
+(* carried.  A new allocator always starts a new file, so an allocated (file, id) key is new.   *)
+NoFile == [l |-> 0, c |-> 0, n |-> 0, full |-> FALSE]
+Tk0    == [fs |-> fs, bck |-> bck, rq |-> <<>>]
 
-AllocSized(a, need) == \* alloc_block(need): whole units; new file when they do not fit
+(* flush_check *)
+Ready(s) == s.full /\ s.l = 0 /\ s.n > 0 /\ s.c >= s.n
+TkFlushCheck(k, f) == IF Ready(k.fs[f]) THEN [k EXCEPT !.rq = Append(@, f)] ELSE k
+(* a file created at a rollover *)
+TkGrow(k, f) == IF f > Len(k.fs) THEN [k EXCEPT !.fs = Append(@, NoFile)] ELSE k
+(* FileStateTracker::set_fully_allocated *)
+TkFull(k, f) == TkFlushCheck([k EXCEPT !.fs[f].full = TRUE], f)
+(* register_block; register_file_if_absent; add_block_to_file_state; set_block_locked *)
+TkAlloc(k, f) == [k EXCEPT !.fs[f].n = @ + 1, !.fs[f].l = @ + 1]
+(* FileStateTracker::set_block_unlocked (an AtomicU16: fetch_sub wraps) *)
+TkUnlock(k, f) == TkFlushCheck([k EXCEPT !.fs[f].l = IF @ > 0 THEN @ - 1 ELSE 65535], f)
+(* BlockStateTracker::set_checkpointed_true(id, file): counted once per key since 93a0380 *)
+TkMark(k, key) ==
+  IF key \in k.bck /\ ~CkptCountedOnEveryReport THEN k
+  ELSE TkFlushCheck([k EXCEPT !.bck = @ \cup {key}, !.fs[key[1]].c = @ + 1], key[1])
+RECURSIVE MarkAll(_, _)
+MarkAll(k, mk) == IF mk = <<>> THEN k ELSE MarkAll(TkMark(k, Head(mk)), Tail(mk))
+KeyOfBlock(b) == <<b.f, b.id>>
+
+InstallTk(k) == fs' = k.fs /\ bck' = k.bck /\ rq' = k.rq /\ lrq' = k.rq
+
+(* allocator.rs: block handout *)
+AllocFirst(a, k) ==    \* get_next_available_block: a default block; new file when the current one is full
+  LET roll == a.u >= UnitsPerFile
+      a1 == IF roll THEN [a EXCEPT !.f = a.f + 1, !.u = 0] ELSE a
+      \* the previous file is marked fully allocated (and flush-checked) before the new file is created
+      k1 == IF roll THEN TkGrow(TkFull(k, a.f), a1.f) ELSE k IN
+  [blk |-> [id |-> a1.id, lim |-> BlockSize, used |-> 0, es |-> <<>>, f |-> a1.f, u |-> a1.u],
+   al  |-> [a1 EXCEPT !.u = a1.u + 1, !.id = a1.id + 1],
+   tk  |-> TkAlloc(k1, a1.f)]
+
+AllocSized(a, k, need) == \* alloc_block(need): whole units; new file when they do not fit
   LET units == (need + BlockSize - 1) \div BlockSize
-      a1 == IF a.u + units > UnitsPerFile THEN [a EXCEPT !.f = a.f + 1, !.u = 0] ELSE a IN
+      roll == a.u + units > UnitsPerFile
+      a1 == IF roll THEN [a EXCEPT !.f = a.f + 1, !.u = 0] ELSE a
+      \* here the new file is created first, then the previous one is marked fully allocated
+      k1 == IF roll THEN TkFull(TkGrow(k, a1.f), a.f) ELSE k IN
   [blk |-> [id |-> a1.id, lim |-> units * BlockSize, used |-> 0, es |-> <<>>, f |-> a1.f, u |-> a1.u],
    al  |-> [a1 EXCEPT !.u = a1.u + units, !.id = a1.id + 1],
-   newfile |-> a.u + units > UnitsPerFile]
+   tk  |-> TkAlloc(k1, a1.f),
+   newfile |-> roll]
 
-(* writer.rs: one entry. s = [w, al, ch, r, rot, lab]. Rotation: allocate first, then seal;   *)
-(* the sealed block is published only if it holds bytes (reader.rs: with tail carry-over).    *)
+(* writer.rs: one entry. s = [w, al, tk, ch, r, rot, lab]. Rotation: allocate first, then seal *)
+(* (set_block_unlocked of the sealed block's file, also when it is empty); the sealed block is  *)
+(* published only if it holds bytes (reader.rs: with tail carry-over): an empty sealed block is  *)
+(* unlocked but never reaches a reader, hence is never marked consumed.                        *)
 WriteOne(s, e) ==
   LET need == ESize(e) IN
   IF s.w.used + need > s.w.lim
-  THEN LET x      == AllocSized(s.al, need)
+  THEN LET x      == AllocSized(s.al, s.tk, need)
            sealed == s.w
            pub    == sealed.used > 0
            ch1    == IF pub THEN Append(s.ch, sealed) ELSE s.ch
@@ -153,7 +230,7 @@ WriteOne(s, e) ==
                      THEN [s.r EXCEPT !.ci = Len(ch1) - 1, !.co = Min(s.r.to, sealed.used)]
                      ELSE s.r
        IN [w   |-> [x.blk EXCEPT !.es = <<e>>, !.used = need],
-           al  |-> x.al, ch |-> ch1, r |-> r1, rot |-> s.rot + 1,
+           al  |-> x.al, tk |-> TkUnlock(x.tk, sealed.f), ch |-> ch1, r |-> r1, rot |-> s.rot + 1,
            lab |-> IF ~pub THEN "rotate_empty"
                    ELSE IF x.blk.lim > BlockSize THEN "rotate_multi"
                    ELSE IF x.newfile THEN "rotate_newfile" ELSE "rotate"]
@@ -164,15 +241,16 @@ WriteAll(s, es) == IF es = <<>> THEN s ELSE WriteAll(WriteOne(s, Head(es)), Tail
 
 (* walrus.rs get_or_create_writer *)
 WithWriter(t) ==
-  IF wr[t].id # 0 THEN [w |-> wr[t], al |-> al, ch |-> chain[t], r |-> rd[t], rot |-> 0, lab |-> "fits"]
-  ELSE LET x == AllocFirst(al) IN
-       [w |-> x.blk, al |-> x.al, ch |-> chain[t], r |-> rd[t], rot |-> 0, lab |-> "fits_first"]
+  IF wr[t].id # 0 THEN [w |-> wr[t], al |-> al, tk |-> Tk0, ch |-> chain[t], r |-> rd[t], rot |-> 0, lab |-> "fits"]
+  ELSE LET x == AllocFirst(al, Tk0) IN
+       [w |-> x.blk, al |-> x.al, tk |-> x.tk, ch |-> chain[t], r |-> rd[t], rot |-> 0, lab |-> "fits_first"]
 
 Install(t, s) ==
   /\ wr' = [wr EXCEPT ![t] = s.w]
   /\ al' = s.al
   /\ chain' = [chain EXCEPT ![t] = s.ch]
   /\ rd' = [rd EXCEPT ![t] = s.r]
+  /\ InstallTk(s.tk)
 
 NewEntries(t, sizes) ==
   [j \in 1 .. Len(sizes) |-> <<KeyOf(TotalLogged + j, sizes[j]), sizes[j], Len(log[t]) + j>>]
@@ -228,6 +306,8 @@ DBatch(t, sizes) ==
 (* writer restarts at offset 0 of the last allocated block, or keeps block and offset when no      *)
 (* block was allocated. The blocks allocated in between stay allocated and empty. Driven in the   *)
 (* harness by fault site `flush`, occurrence rot+1 (one flush per seal while planning).            *)
+(* Trackers: every block sealed while planning was unlocked then (s1.tk); the blocks left empty    *)
+(* count in total_blocks but are never published, so their file can never become ready.            *)
 DBatchFail(t, sizes) ==
   LET s0  == WithWriter(t)
       s1  == WriteAll(s0, NewEntries(t, sizes))     \* the plan: rotations and allocations
@@ -238,7 +318,7 @@ DBatchFail(t, sizes) ==
       w1  == IF s1.rot = 0 THEN s0.w ELSE [s1.w EXCEPT !.es = <<>>, !.used = 0]
       ids == [j \in 1 .. Len(sizes) |-> <<900 + 10 * nops + j, sizes[j]>>]
   IN /\ ~BatchInvalid(sizes) /\ sizes # <<>>
-     /\ Install(t, [w |-> w1, al |-> s1.al, ch |-> ch1, r |-> r1])
+     /\ Install(t, [w |-> w1, al |-> s1.al, tk |-> s1.tk, ch |-> ch1, r |-> r1])
      /\ UNCHANGED <<ix, cnt>>
      /\ Refine(AppendFail(t) /\ clean'[t] = FALSE, "C04: failed batch not allowed")
      /\ Log([op |-> "batch", t |-> t, es |-> ids, bad |-> TRUE, flush_nth |-> s1.rot + 1],
@@ -266,35 +346,37 @@ ShouldPersist(rsp) ==
   IF ~Alo THEN [p |-> TRUE, rsp |-> rsp]
   ELSE IF rsp + 1 >= Every THEN [p |-> TRUE, rsp |-> 0] ELSE [p |-> FALSE, rsp |-> rsp + 1]
 
-(* read_next, sealed part of the loop: walk past exhausted blocks and rolled-back space *)
-RECURSIVE RNAdv(_, _, _, _)
-RNAdv(ch, ci, co, adv) ==
-  IF ci >= Len(ch) THEN [k |-> "tail", ci |-> ci, co |-> co, adv |-> adv]
+(* read_next, sealed part of the loop: walk past exhausted blocks and rolled-back space; every  *)
+(* block walked past is reported to BlockStateTracker::set_checkpointed_true (mk), for peeks too *)
+RECURSIVE RNAdv(_, _, _, _, _)
+RNAdv(ch, ci, co, adv, mk) ==
+  IF ci >= Len(ch) THEN [k |-> "tail", ci |-> ci, co |-> co, adv |-> adv, mk |-> mk]
   ELSE LET b == ch[ci + 1] IN
-       IF co >= b.used THEN RNAdv(ch, ci + 1, 0, adv + 1)
+       IF co >= b.used THEN RNAdv(ch, ci + 1, 0, adv + 1, Append(mk, KeyOfBlock(b)))
        ELSE LET i == EntIdx(b.es, co) IN
-            IF i > 0 THEN [k |-> "ent", ci |-> ci, co |-> co, adv |-> adv, e |-> b.es[i]]
-            ELSE IF i = 0 THEN RNAdv(ch, ci + 1, 0, adv + 100)
-            ELSE [k |-> "bad", ci |-> ci, co |-> co, adv |-> adv]
+            IF i > 0 THEN [k |-> "ent", ci |-> ci, co |-> co, adv |-> adv, e |-> b.es[i], mk |-> mk]
+            ELSE IF i = 0 THEN RNAdv(ch, ci + 1, 0, adv + 100, Append(mk, KeyOfBlock(b)))
+            ELSE [k |-> "bad", ci |-> ci, co |-> co, adv |-> adv, mk |-> mk]
 
 (* outcome of a read: new reader info, new index entry, entries to subtract from the count,   *)
-(* returned entries, code-path label, bad = the cursor was not at an entry boundary            *)
+(* returned entries, code-path label, bad = the cursor was not at an entry boundary, mk = the  *)
+(* blocks reported as consumed, in order                                                     *)
 ReadNextOutcome(t, ck) ==
   LET r0 == Hydrate(t, FALSE)
-      a  == RNAdv(chain[t], r0.ci, r0.co, 0)
+      a  == RNAdv(chain[t], r0.ci, r0.co, 0, <<>>)
       ra == [r0 EXCEPT !.ci = a.ci, !.co = a.co]
       advl == IF a.adv = 0 THEN "" ELSE IF a.adv >= 100 THEN "_deadskip" ELSE "_adv"
   IN
-  IF a.k = "bad" THEN [r |-> ra, ix |-> ix[t], dec |-> 0, rs |-> <<>>, lab |-> "rn_bad", bad |-> TRUE]
+  IF a.k = "bad" THEN [r |-> ra, ix |-> ix[t], dec |-> 0, rs |-> <<>>, lab |-> "rn_bad", bad |-> TRUE, mk |-> a.mk]
   ELSE IF a.k = "ent"
   THEN LET noff == a.co + ESize(a.e)
            sp   == ShouldPersist(r0.rsp) IN
        IF ck THEN [r |-> [ra EXCEPT !.co = noff, !.rsp = sp.rsp],
                    ix |-> IF sp.p THEN <<0, a.ci, noff>> ELSE ix[t],
-                   dec |-> 1, rs |-> <<a.e>>, lab |-> "rn_sealed" \o advl, bad |-> FALSE]
-             ELSE [r |-> ra, ix |-> ix[t], dec |-> 0, rs |-> <<a.e>>, lab |-> "rn_sealed_peek" \o advl, bad |-> FALSE]
+                   dec |-> 1, rs |-> <<a.e>>, lab |-> "rn_sealed" \o advl, bad |-> FALSE, mk |-> a.mk]
+             ELSE [r |-> ra, ix |-> ix[t], dec |-> 0, rs |-> <<a.e>>, lab |-> "rn_sealed_peek" \o advl, bad |-> FALSE, mk |-> a.mk]
   ELSE \* tail path
-  IF wr[t].id = 0 THEN [r |-> ra, ix |-> ix[t], dec |-> 0, rs |-> <<>>, lab |-> "rn_nowriter" \o advl, bad |-> FALSE]
+  IF wr[t].id = 0 THEN [r |-> ra, ix |-> ix[t], dec |-> 0, rs |-> <<>>, lab |-> "rn_nowriter" \o advl, bad |-> FALSE, mk |-> a.mk]
   ELSE
   LET w       == wr[t]
       \* a position in the active block is persisted as (number of sealed blocks, offset) since ad9d0d0
@@ -307,27 +389,32 @@ ReadNextOutcome(t, ck) ==
       initl   == IF doInit THEN "_init" ELSE ""
   IN IF toff < w.used
      THEN LET i == EntIdx(w.es, toff) IN
-          IF i <= 0 THEN [r |-> ra, ix |-> ixA, dec |-> 0, rs |-> <<>>, lab |-> "rn_bad", bad |-> TRUE]
+          IF i <= 0 THEN [r |-> ra, ix |-> ixA, dec |-> 0, rs |-> <<>>, lab |-> "rn_bad", bad |-> TRUE, mk |-> a.mk]
           ELSE LET e == w.es[i]  noff == toff + ESize(e)  sp == ShouldPersist(rspA) IN
                IF ck THEN [r |-> [ra EXCEPT !.tb = w.id, !.to = noff, !.rsp = sp.rsp],
                            ix |-> IF sp.p THEN <<0, tpos, noff>> ELSE ixA,
-                           dec |-> 1, rs |-> <<e>>, lab |-> "rn_tail" \o initl \o advl, bad |-> FALSE]
-                     ELSE [r |-> ra, ix |-> ixA, dec |-> 0, rs |-> <<e>>, lab |-> "rn_tail_peek" \o advl, bad |-> FALSE]
+                           dec |-> 1, rs |-> <<e>>, lab |-> "rn_tail" \o initl \o advl, bad |-> FALSE, mk |-> a.mk]
+                     ELSE [r |-> ra, ix |-> ixA, dec |-> 0, rs |-> <<e>>, lab |-> "rn_tail_peek" \o advl, bad |-> FALSE, mk |-> a.mk]
      ELSE [r |-> [ra EXCEPT !.rsp = rspA], ix |-> ixA, dec |-> 0, rs |-> <<>>,
-           lab |-> "rn_tail_caughtup" \o initl \o advl, bad |-> FALSE]
+           lab |-> "rn_tail_caughtup" \o initl \o advl, bad |-> FALSE, mk |-> a.mk]
 
 -----------------------------------------------------------------------------------------
 (* batch_read_for_topic (cursor-based), step 2: the planner. A plan element is a byte range    *)
 (* [s, e) of chain block k (0-based) or of the writer's block (tail).                          *)
-RECURSIVE PlanSealed(_, _, _, _, _, _, _)
-PlanSealed(ch, b, idx, off, planned, plan, skips) ==
+(* A block the planner's local cursor walks past without planning a range (the cursor stands  *)
+(* at or behind its `used`, or on rolled-back space) is reported as consumed (mk): cursor-based  *)
+(* reads only (`info_guard.is_some()`), peeks included, and again on every call for as long as    *)
+(* the shared cursor stays there. Blocks that are planned, parsed and committed in one call are   *)
+(* not reported by that call (nor later: the committed cursor is already past them).             *)
+RECURSIVE PlanSealed(_, _, _, _, _, _, _, _)
+PlanSealed(ch, b, idx, off, planned, plan, skips, mk) ==
   LET go == (b < 0 \/ planned < b) \/ (plan = <<>> /\ ~Budget0PlansNothing) IN
-  IF idx >= Len(ch) \/ ~go THEN [plan |-> plan, idx |-> idx, bad |-> FALSE, skips |-> skips]
+  IF idx >= Len(ch) \/ ~go THEN [plan |-> plan, idx |-> idx, bad |-> FALSE, skips |-> skips, mk |-> mk]
   ELSE LET blk == ch[idx + 1] IN
-       IF off >= blk.used THEN PlanSealed(ch, b, idx + 1, 0, planned, plan, skips)
+       IF off >= blk.used THEN PlanSealed(ch, b, idx + 1, 0, planned, plan, skips, Append(mk, KeyOfBlock(blk)))
        ELSE LET i == EntIdx(blk.es, off) IN
-            IF i = 0 THEN PlanSealed(ch, b, idx + 1, 0, planned, plan, skips + 1)   \* dead space: skip, free of charge
-            ELSE IF i < 0 THEN [plan |-> plan, idx |-> idx, bad |-> TRUE, skips |-> skips]
+            IF i = 0 THEN PlanSealed(ch, b, idx + 1, 0, planned, plan, skips + 1, Append(mk, KeyOfBlock(blk)))   \* dead space: skip, free of charge
+            ELSE IF i < 0 THEN [plan |-> plan, idx |-> idx, bad |-> TRUE, skips |-> skips, mk |-> mk]
             ELSE
             LET want0 == IF b < 0 THEN Inf ELSE b - planned
                 req1  == ESize(blk.es[i])
@@ -339,8 +426,8 @@ PlanSealed(ch, b, idx, off, planned, plan, skips) ==
                 end   == Min(blk.used, off + want)
             IN IF end > off
                THEN PlanSealed(ch, b, idx + 1, 0, planned + (end - off),
-                               Append(plan, [k |-> idx, s |-> off, e |-> end, tail |-> FALSE]), skips)
-               ELSE PlanSealed(ch, b, idx + 1, 0, planned, plan, skips)
+                               Append(plan, [k |-> idx, s |-> off, e |-> end, tail |-> FALSE]), skips, mk)
+               ELSE PlanSealed(ch, b, idx + 1, 0, planned, plan, skips, mk)
 
 (* step 4: the parser. ps = [out, tot, fi, fo, ftb, fto, saw, why, bad] *)
 RECURSIVE ParseRange(_, _, _, _, _)
@@ -376,28 +463,28 @@ BatchReadOutcome(t, b, ck) ==
   LET r0 == Hydrate(t, TRUE)
       ch == chain[t]
       w  == wr[t]
-      pl == PlanSealed(ch, b, r0.ci, r0.co, 0, <<>>, 0)
+      pl == PlanSealed(ch, b, r0.ci, r0.co, 0, <<>>, 0, <<>>)
       ts == IF r0.tb = w.id THEN r0.to ELSE 0
       planTail == pl.idx >= Len(ch) /\ w.id # 0 /\ IdxOfId(ch, w.id) = 0 /\ ts < w.used
       plan == IF planTail THEN Append(pl.plan, [k |-> 0 - 1, s |-> ts, e |-> w.used, tail |-> TRUE]) ELSE pl.plan
-      ps0 == [out |-> <<>>, tot |-> 0, fi |-> 0, fo |-> 0, ftb |-> 0, fto |-> 0, saw |-> FALSE, why |-> "none", bad |-> FALSE]
+      ps0 == [out |-> <<>>, tot |-> 0, fi |-> 0, fo |-> 0, ftb |-> 0, fto |-> 0, saw |-> FALSE, why |-> "none", bad |-> FALSE, mk |-> pl.mk]
       ps == ParsePlan(ch, w, plan, 1, ps0, b)
       n  == Len(ps.out)
       partial == pl.plan # <<>> /\ pl.plan[Len(pl.plan)].e < ch[pl.plan[Len(pl.plan)].k + 1].used
       lab == "br_" \o (IF ck THEN "" ELSE "peek_") \o "s" \o NStr(Len(pl.plan)) \o (IF partial THEN "p" ELSE "")
              \o (IF planTail THEN "_t" ELSE "") \o (IF pl.skips > 0 THEN "_deadskip" ELSE "") \o "_" \o ps.why
   IN
-  IF pl.bad \/ ps.bad THEN [r |-> r0, ix |-> ix[t], dec |-> 0, rs |-> <<>>, lab |-> "br_bad", bad |-> TRUE]
-  ELSE IF n = 0 \/ ~ck THEN [r |-> r0, ix |-> ix[t], dec |-> 0, rs |-> ps.out, lab |-> lab, bad |-> FALSE]
+  IF pl.bad \/ ps.bad THEN [r |-> r0, ix |-> ix[t], dec |-> 0, rs |-> <<>>, lab |-> "br_bad", bad |-> TRUE, mk |-> pl.mk]
+  ELSE IF n = 0 \/ ~ck THEN [r |-> r0, ix |-> ix[t], dec |-> 0, rs |-> ps.out, lab |-> lab, bad |-> FALSE, mk |-> pl.mk]
   ELSE \* step 5: commit. AtLeastOnce batch reads never write the index.
   LET rsp1 == IF ~Alo THEN r0.rsp ELSE IF r0.rsp + n >= Every THEN 0 ELSE r0.rsp + n IN
   IF ps.saw
   THEN [r |-> [r0 EXCEPT !.ci = Len(ch), !.co = 0, !.tb = ps.ftb, !.to = ps.fto, !.rsp = rsp1],
         ix |-> IF Alo THEN ix[t] ELSE <<0, Len(ch), ps.fto>>,
-        dec |-> n, rs |-> ps.out, lab |-> lab, bad |-> FALSE]
+        dec |-> n, rs |-> ps.out, lab |-> lab, bad |-> FALSE, mk |-> pl.mk]
   ELSE [r |-> [r0 EXCEPT !.ci = ps.fi, !.co = ps.fo, !.rsp = rsp1],
         ix |-> IF Alo THEN ix[t] ELSE <<0, ps.fi, ps.fo>>,
-        dec |-> n, rs |-> ps.out, lab |-> lab, bad |-> FALSE]
+        dec |-> n, rs |-> ps.out, lab |-> lab, bad |-> FALSE, mk |-> pl.mk]
 
 -----------------------------------------------------------------------------------------
 (* Why the contract refuses a read result (for the `viol` text only) *)
@@ -419,6 +506,7 @@ ApplyRead(t, kind, b, ck, o, op) ==
      /\ ix' = [ix EXCEPT ![t] = o.ix]
      /\ cnt' = [cnt EXCEPT ![t] = IF @ >= o.dec THEN @ - o.dec ELSE 0]
      /\ UNCHANGED <<chain, wr, al>>
+     /\ InstallTk(MarkAll(Tk0, o.mk))
      /\ IF o.bad THEN viol' = "design: read position is not an entry boundary" /\ UNCHANGED avars
         ELSE IF kind = "read" THEN Refine(ReadNext(t, ck, c, rs), ReadWhy(t, kind, b, ck, rs))
         ELSE Refine(BatchRead(t, b, ck, c, rs), ReadWhy(t, kind, b, ck, rs))
@@ -474,7 +562,43 @@ StartupPos(ch, p) ==
            ib  == Min(ib0, n)
        IN [ci |-> ib, co |-> IF ib < n THEN Min(off, ch[ib + 1].used) ELSE 0]
 
-DReopen ==
+(* startup_chore and the trackers. Every file listed is registered (the allocator of the new    *)
+(* instance has created its file before the scan, so that one is listed too); every recovered  *)
+(* block is registered under its recovered id and counted in total_blocks of its file - in a    *)
+(* process that had these files open before, on top of what was counted then; for every topic    *)
+(* with an index entry the blocks in front of the recovered position (and the block at it when    *)
+(* its offset is at the end) are reported as consumed; then every file seen is flush-checked.     *)
+(* Nothing here sets locked or fully-allocated: what a previous instance of the same process      *)
+(* left locked stays locked (a Writer has no Drop), a fresh process never sees a file as full.     *)
+RecCount(rch, f) ==
+  Cardinality(UNION {{<<t, i>> : i \in {j \in 1 .. Len(rch[t]) : rch[t][j].f = f}} : t \in Topics})
+
+StartupMarks(ch, p) ==
+  LET n == Len(ch)  sp == StartupPos(ch, p) IN
+  IF p = <<>> \/ n = 0 THEN <<>>
+  ELSE [i \in 1 .. sp.ci |-> KeyOfBlock(ch[i])]
+       \o (IF sp.ci < n /\ sp.co >= ch[sp.ci + 1].used THEN <<KeyOfBlock(ch[sp.ci + 1])>> ELSE <<>>)
+
+(* (the code walks a HashMap of topics and a HashSet of files: the order of the requests of one  *)
+(* startup is arbitrary, their multiset is not; the harness compares multisets)                  *)
+RECURSIVE StartupMarkAll(_, _, _)
+StartupMarkAll(k, rch, ts) ==
+  IF ts = {} THEN k
+  ELSE LET t == CHOOSE x \in ts : TRUE IN
+       StartupMarkAll(MarkAll(k, StartupMarks(rch[t], ix[t])), rch, ts \ {t})
+
+RECURSIVE FlushAll(_, _, _)
+FlushAll(k, f, n) == IF f > n THEN k ELSE FlushAll(TkFlushCheck(k, f), f + 1, n)
+
+StartupTk(rch, fresh) ==
+  LET nf   == al.f + 1
+      base == [f \in 1 .. nf |->
+                 LET old == IF fresh \/ f > Len(fs) THEN NoFile ELSE fs[f] IN
+                 [old EXCEPT !.n = @ + RecCount(rch, f)]]
+      k0   == [fs |-> base, bck |-> IF fresh THEN {} ELSE bck, rq |-> <<>>]
+  IN FlushAll(StartupMarkAll(k0, rch, Topics), 1, nf)
+
+Reopen(fresh) ==
   LET rec == Recovered IN
   /\ nre < MaxReopens
   /\ nre' = nre + 1
@@ -485,9 +609,34 @@ DReopen ==
                                   con == IndexConsumed(rec.ch[t], ix[t])
                               IN IF tot >= con THEN tot - con ELSE 0]
   /\ al' = [id |-> rec.next, f |-> al.f + 1, u |-> 0]     \* a new allocator always starts a new file
+  /\ InstallTk(StartupTk(rec.ch, fresh))
   /\ UNCHANGED ix
   /\ Refine(Restart(0), "C06: restart not allowed")
-  /\ Log([op |-> "reopen", i |-> 0, proc |-> "same", ro |-> TRUE], "reopen")
+  /\ Log([op |-> "reopen", i |-> 0, proc |-> IF fresh THEN "new" ELSE "same", ro |-> TRUE],
+         IF fresh THEN "reopen_new" ELSE "reopen")
+
+DReopen    == Reopen(FALSE)     \* drop the instance and open it again in the same process
+DReopenNew == Reopen(TRUE)      \* ... in a fresh process
+
+-----------------------------------------------------------------------------------------
+(* flush_check found a file ready and sent it to the deletion channel (the cfg(walrus_verif)     *)
+(* `reclaim_requested` event): the contract's Reclaim with the acknowledged entries stored in     *)
+(* that file, as <<topic, position in the contract log>>.                                       *)
+BlocksOf(t) == {chain[t][k] : k \in 1 .. Len(chain[t])} \cup (IF wr[t].id # 0 THEN {wr[t]} ELSE {})
+StoredIn(f) ==
+  UNION {UNION {{<<t, b.es[i][3]>> : i \in 1 .. Len(b.es)} : b \in {x \in BlocksOf(t) : x.f = f}} : t \in Topics}
+
+DReclaim ==
+  /\ rq # <<>>
+  /\ viol = ""
+  /\ rq' = Tail(rq)
+  /\ Refine(Reclaim(StoredIn(Head(rq))),
+            "C12: a file was handed to the deleter while an acknowledged entry stored in it is not durably consumed")
+  /\ UNCHANGED <<chain, wr, rd, ix, cnt, al, fs, bck, lrq, nops, nre, lastOp, hist>>
+
+(* what the contract demands of a request, and the weaker "consumed in the running process"      *)
+ReclaimAllowed(stored)   == \A p \in stored : p[2] <= lb[p[1]] /\ p[2] <= cur[p[1]] - slack[p[1]]
+ConsumedInMemory(stored) == \A p \in stored : p[2] <= cur[p[1]] - slack[p[1]]
 
 -----------------------------------------------------------------------------------------
 DInit ==
@@ -509,20 +658,25 @@ DInit ==
   /\ ix = [t \in Topics |-> <<>>]
   /\ cnt = [t \in Topics |-> 0]
   /\ al = [id |-> 1, f |-> 1, u |-> 0]
+  /\ fs = <<NoFile>>           \* the first startup_chore lists (and registers) the file the allocator created
+  /\ bck = {}
+  /\ rq = <<>> /\ lrq = <<>>
   /\ nops = 0 /\ nre = 0
   /\ viol = ""
   /\ lastOp = "init"
   /\ hist = <<>>
 
-Go == viol = "" /\ nops < MaxOps
+Go == viol = "" /\ nops < MaxOps /\ rq = <<>>     \* requests are discharged before the next call
 OpAppend    == Go /\ \E t \in Topics, s \in Sizes : DAppend(t, s) /\ UNCHANGED nre
 OpBatch     == Go /\ \E t \in Topics, q \in BatchShapes : DBatch(t, q) /\ UNCHANGED nre
 OpBatchFail == Go /\ \E t \in Topics, q \in FailShapes : DBatchFail(t, q) /\ UNCHANGED nre
 OpReadNext  == Go /\ \E t \in Topics, ck \in Cks : DReadNext(t, ck) /\ UNCHANGED nre
 OpBatchRead == Go /\ \E t \in Topics, b \in Budgets, ck \in Cks : DBatchRead(t, b, ck) /\ UNCHANGED nre
 OpReopen    == Go /\ DReopen
+OpReopenNew == Go /\ NewProcReopen /\ DReopenNew
+OpReclaim   == DReclaim /\ UNCHANGED nre
 
-DNext == OpAppend \/ OpBatch \/ OpBatchFail \/ OpReadNext \/ OpBatchRead \/ OpReopen
+DNext == OpAppend \/ OpBatch \/ OpBatchFail \/ OpReadNext \/ OpBatchRead \/ OpReopen \/ OpReopenNew \/ OpReclaim
 DSpec == DInit /\ [][DNext]_vars
 
 -----------------------------------------------------------------------------------------
@@ -560,7 +714,17 @@ InvDurable == \A t \in Topics :
   IF Strict(t) THEN DurablePos(t) = cur[t]
   ELSE DurablePos(t) >= lb[t] /\ DurablePos(t) <= cur[t]
 
+(* C12 at the design level: a block whose flag is set under its current key has been walked     *)
+(* past by the reader in this process or lies in front of the recovered index position, i.e. it  *)
+(* is consumed in memory (StrictlyAtOnce: durably). The converse direction of the bookkeeping:     *)
+(* the checkpoint counter never exceeds the number of flagged keys of the file unless the          *)
+(* historical defect is switched on.                                                              *)
+InvCkptCounter == ~CkptCountedOnEveryReport =>
+  \A f \in 1 .. Len(fs) : fs[f].c = Cardinality({k \in bck : k[1] = f})
+
 TypeOKD ==
   /\ \A t \in Topics : rd[t].ci \in 0 .. Len(chain[t]) /\ cnt[t] \in Nat
   /\ al.u \in 0 .. UnitsPerFile
+  /\ Len(fs) = al.f
+  /\ \A f \in 1 .. Len(fs) : fs[f].l \in 0 .. 64 /\ fs[f].c \in Nat /\ fs[f].n \in Nat /\ fs[f].full \in BOOLEAN
 =========================================================================================
